@@ -549,6 +549,37 @@ class Walker:
             res[combo] = set(n for n, bbs in targets.items() if r & set(bbs))
         return names, res
 
+    def table_ok(self, targets, ok_name="ok", start=0):
+        """table() where the target `ok_name` also counts a *tail call*: a block whose call writes the function's
+        Result return place directly (`check(..).map_err(..)` as the last expression). Such a return is a success
+        under a valuation unless the call is a boolean atom valued false there."""
+        from . import query as Q
+        fn = self.fn
+        rl = Q.ret_locals(fn)
+        tails = []
+        for bi, b in enumerate(fn.blocks):
+            t = b["t"]
+            if t["k"] == "call" and not t["dest"].get("pr") and t["dest"]["l"] in rl and "decl" in t["f"] and fn.locals[t["dest"]["l"]].s.startswith("std::result::Result<"):
+                q = fn.callee(t)[0].qname
+                if q in ("std::ops::FromResidual::from_residual",):
+                    continue
+                tails.append((bi, self.T.call_term(t)))
+        tg = dict(targets)
+        for i, (bi, ct) in enumerate(tails):
+            tg["\0tail%d" % i] = [bi]
+        names, res = self.table(tg, start)
+        out = {}
+        for combo, reach in res.items():
+            val = dict(zip(names, combo))
+            r = set(x for x in reach if not x.startswith("\0tail"))
+            for i, (bi, ct) in enumerate(tails):
+                if "\0tail%d" % i in reach:
+                    at = self.atom_of(ct, ("bool",))
+                    if at is None or val[at.name]:
+                        r.add(ok_name)
+            out[combo] = r
+        return names, out, [bi for bi, _ in tails]
+
 
 def written_fields(p):
     """Names of fields on the access path of a written place."""
